@@ -714,6 +714,36 @@ func (r *seqRun) persist(op Op) *sim.Violation {
 	r.disk.FailNext = wantFail
 	var n int
 	var err error
+	// Overlap > 0 (bottom layer, asynchronous Persist, no injected failure): while the flush is writing to the backend
+	// another goroutine puts a fresh key into the same layer and calls PersistSync on it (the state synchronisation
+	// module's PersistSync against the persist loop's Persist). Persist keeps a second flush out until it is through,
+	// so the second one finds the layer restored and writes the key; a flush let in earlier would write into the
+	// first one's temporary lower layer, which is dropped.
+	var odone chan error
+	var okey string
+	var oval []byte
+	if op.Overlap > 0 && variant == 0 && i == 0 && !wantFail && len(r.m.layers[0].m) > 0 {
+		okey = string([]byte{prefixBytes[0], 0xee, byte(r.step)})
+		oval = []byte(fmt.Sprintf("ovl%d", r.step))
+		odone = make(chan error, 1)
+		r.disk.OnPCS = func() {
+			done := make(chan error, 1)
+			go func() {
+				L.d.Store.Put([]byte(okey), oval)
+				_, e := L.d.PersistSync()
+				done <- e
+			}()
+			// (real time, as for the SeekGC pass: on a store that keeps the second flush out the goroutine is blocked
+			// until Persist returns and the verdict does not depend on the pause)
+			select {
+			case e := <-done:
+				r.out.Probes["second_flush_not_kept_out"]++
+				odone <- e
+			case <-time.After(25 * time.Millisecond):
+				go func() { odone <- <-done }()
+			}
+		}
+	}
 	switch variant {
 	case 0:
 		n, err = L.d.Persist()
@@ -722,6 +752,7 @@ func (r *seqRun) persist(op Op) *sim.Violation {
 	case 2:
 		n = r.stack[i-1].d.PersistPrivate(L.d)
 	}
+	r.disk.OnPCS = nil
 	fired := wantFail && !r.disk.FailNext
 	r.disk.FailNext = false
 	r.log.Addf("%d persist L%d variant=%d private=%v -> %d err=%v", r.step, i, variant, L.private, n, err != nil)
@@ -759,6 +790,15 @@ func (r *seqRun) persist(op Op) *sim.Violation {
 			r.pop()
 			r.out.Probes["private_persisted"]++
 		}
+	}
+	if odone != nil {
+		if oerr := <-odone; oerr != nil {
+			sim.Harnessf("overlapping PersistSync on %s: %v", r.bname, oerr)
+		}
+		// both flushes are through: the key is in the backend
+		r.m.backend[okey] = oval
+		delete(r.m.layers[0].m, okey)
+		r.out.Probes["persist_with_overlapping_sync_flush"]++
 	}
 	if v := r.audit("persist"); v != nil {
 		return v
